@@ -1431,6 +1431,64 @@ class _UnrollComp(ast.NodeTransformer):
     visit_ListComp = visit_DictComp = visit_SetComp = _do
 
 
+class _Beta(ast.NodeTransformer):
+    """(lambda a, b: E)(x, y) is E[a := x, b := y] (plain positional parameters;
+    an argument that is not call-free may be used at most once in E)"""
+    changed = False
+
+    def visit_Call(self, node):
+        self.generic_visit(node)
+        f = node.func
+        if not isinstance(f, ast.Lambda) or node.keywords or \
+                any(isinstance(a, ast.Starred) for a in node.args):
+            return node
+        a = f.args
+        if a.vararg or a.kwarg or a.kwonlyargs or getattr(a, 'posonlyargs', []) or \
+                a.defaults and len(node.args) < len(a.args):
+            return node
+        params = [x.arg for x in a.args]
+        if len(params) != len(node.args):
+            return node
+        for pn, arg in zip(params, node.args):
+            uses = sum(1 for x in ast.walk(f.body) if isinstance(x, ast.Name) and x.id == pn)
+            if uses > 1 and not _call_free(arg):
+                return node
+        m = dict(zip(params, node.args))
+
+        class S(ast.NodeTransformer):
+            def visit_Name(self, n):
+                if n.id in m and isinstance(n.ctx, ast.Load):
+                    return clone(m[n.id])
+                return n
+
+            def visit_Lambda(self, n):
+                inner = {x.arg for x in n.args.args}
+                if inner & set(m):
+                    return n
+                return self.generic_visit(n)
+        self.changed = True
+        return ast.copy_location(S().visit(clone(f.body)), node)
+
+
+def beta_reduce(node):
+    return _Beta().visit(node)
+
+
+_OP_BIN = {'eq': ast.Eq, 'ne': ast.NotEq, 'lt': ast.Lt, 'le': ast.LtE, 'gt': ast.Gt,
+           'ge': ast.GtE, 'is_': ast.Is, 'is_not': ast.IsNot}
+
+
+def _opname(f):
+    """name of a function of the operator module (operator.x, or a bare imported x
+    that is one of the unambiguous names)"""
+    if isinstance(f, ast.Attribute) and isinstance(f.value, ast.Name) and \
+            f.value.id in ('operator', '_operator'):
+        return f.attr
+    if isinstance(f, ast.Name) and f.id in ('attrgetter', 'itemgetter', 'methodcaller'):
+        return f.id
+    return None
+
+
 class _Spell(ast.NodeTransformer):
     """[*X] is list(X); (*X,) is tuple(X); getattr(x, 'lit') is x.lit;
     x[slice(a, b)] is x[a:b]"""
@@ -1455,6 +1513,10 @@ class _Spell(ast.NodeTransformer):
 
     def visit_Call(self, node):
         self.generic_visit(node)
+        r = self._functional(node)
+        if r is not None:
+            self.changed = True
+            return ast.copy_location(r, node)
         if isinstance(node.func, ast.Name) and node.func.id == 'getattr' and \
                 len(node.args) == 2 and not node.keywords and \
                 isinstance(node.args[1], ast.Constant) and \
@@ -1513,6 +1575,103 @@ class _Spell(ast.NodeTransformer):
                 return c
             node.args = [c]
         return node
+
+    def _functional(self, node):
+        """operator.attrgetter('x')(e) is e.x; itemgetter(k)(e) is e[k];
+        methodcaller('m', *a)(e) is e.m(*a); operator.contains(a, b) is b in a;
+        operator.getitem(a, b) is a[b]; operator.eq/ne/lt/../is_/is_not(a, b) and
+        not_/truth(a) are the operators; map(F, X) / filter(F, X) consumed by
+        list/tuple/set/any/all/sum/dict/zip/iter/next or starred are comprehensions
+        over X (F a lambda, an operator factory or a name); an immediately applied
+        lambda is its body"""
+        f = node.func
+        plain = not node.keywords and not any(isinstance(a, ast.Starred) for a in node.args)
+        if isinstance(f, ast.Name) and f.id in getattr(self, 'aliases', {}):
+            # module-level `name = operator.attrgetter('x')` / `name = lambda ...`
+            node = ast.Call(func=clone(self.aliases[f.id]), args=node.args,
+                            keywords=node.keywords)
+            f = node.func
+            r = self._functional(node)
+            return r if r is not None else node
+        if isinstance(f, ast.Lambda):
+            b = _Beta()
+            r = b.visit(node)
+            return r if b.changed else None
+        # applied operator factories
+        if isinstance(f, ast.Call) and plain and len(node.args) == 1 and not f.keywords:
+            op = _opname(f.func)
+            e = node.args[0]
+            if op == 'attrgetter' and len(f.args) == 1 and isinstance(f.args[0], ast.Constant) \
+                    and isinstance(f.args[0].value, str) and f.args[0].value.isidentifier():
+                return ast.Attribute(value=e, attr=f.args[0].value, ctx=ast.Load())
+            if op == 'itemgetter' and len(f.args) == 1:
+                return ast.Subscript(value=e, slice=f.args[0], ctx=ast.Load())
+            if op == 'methodcaller' and f.args and isinstance(f.args[0], ast.Constant) and \
+                    isinstance(f.args[0].value, str) and f.args[0].value.isidentifier():
+                return ast.Call(func=ast.Attribute(value=e, attr=f.args[0].value, ctx=ast.Load()),
+                                args=list(f.args[1:]), keywords=[])
+        op = _opname(f) if isinstance(f, ast.Attribute) else None
+        if op and plain:
+            a = node.args
+            if op in _OP_BIN and len(a) == 2:
+                return ast.Compare(left=a[0], ops=[_OP_BIN[op]()], comparators=[a[1]])
+            if op == 'contains' and len(a) == 2:
+                return ast.Compare(left=a[1], ops=[ast.In()], comparators=[a[0]])
+            if op == 'getitem' and len(a) == 2:
+                return ast.Subscript(value=a[0], slice=a[1], ctx=ast.Load())
+            if op == 'not_' and len(a) == 1:
+                return ast.UnaryOp(op=ast.Not(), operand=a[0])
+            if op == 'truth' and len(a) == 1:
+                return ast.Call(func=ast.Name(id='bool', ctx=ast.Load()), args=[a[0]], keywords=[])
+        # map / filter consumed eagerly
+        def fn_ok(F):
+            return isinstance(F, (ast.Lambda, ast.Name, ast.Attribute)) or \
+                (isinstance(F, ast.Call) and _opname(F.func) in ('attrgetter', 'itemgetter',
+                                                                  'methodcaller'))
+
+        def as_gen(m):
+            if not (isinstance(m, ast.Call) and isinstance(m.func, ast.Name) and
+                    m.func.id in ('map', 'filter') and len(m.args) == 2 and not m.keywords
+                    and not any(isinstance(x, ast.Starred) for x in m.args)):
+                return None
+            F, X = m.args
+            v = '_m' if m.func.id == 'map' else '_f'
+            if m.func.id == 'filter' and _is_const(F, None):
+                elt, ifs = ast.Name(id=v, ctx=ast.Load()), [ast.Name(id=v, ctx=ast.Load())]
+            elif not fn_ok(F):
+                return None
+            else:
+                app = self.visit(ast.Call(func=F, args=[ast.Name(id=v, ctx=ast.Load())],
+                                          keywords=[]))
+                if m.func.id == 'map':
+                    elt, ifs = app, []
+                else:
+                    elt, ifs = ast.Name(id=v, ctx=ast.Load()), [app]
+            return ast.GeneratorExp(elt=elt, generators=[ast.comprehension(
+                target=ast.Name(id=v, ctx=ast.Store()), iter=X, ifs=ifs, is_async=0)])
+        if isinstance(f, ast.Name) and f.id in ('list', 'tuple', 'set', 'any', 'all', 'sum',
+                                                'dict', 'iter', 'frozenset', 'sorted') and \
+                plain and len(node.args) == 1:
+            g = as_gen(node.args[0])
+            if g is not None:
+                # a lambda / factory consumer only: names keep the older spelling
+                F = node.args[0].args[0]
+                if isinstance(F, (ast.Name, ast.Attribute)) and f.id in ('list', 'tuple'):
+                    return None
+                if f.id == 'list':
+                    return ast.ListComp(elt=g.elt, generators=g.generators)
+                if f.id == 'tuple':
+                    return ast.Call(func=f, args=[ast.ListComp(elt=g.elt,
+                                                               generators=g.generators)],
+                                    keywords=[])
+                if f.id == 'set':
+                    return ast.SetComp(elt=g.elt, generators=g.generators)
+                return ast.Call(func=f, args=[g], keywords=[])
+        if isinstance(f, ast.Name) and f.id == 'next' and plain and node.args:
+            g = as_gen(node.args[0])
+            if g is not None:
+                return ast.Call(func=f, args=[g] + list(node.args[1:]), keywords=[])
+        return None
 
     def _one_star(self, node, name):
         self.generic_visit(node)
@@ -1617,8 +1776,25 @@ def normalize(func):
     if sa.changed:
         changed = True
     sp = _Spell()
-    for k, st in enumerate(new.body):
-        new.body[k] = sp.visit(st)
+    sp.aliases = {}
+    if mod_ is not None:
+        for st_ in mod_.body:
+            if isinstance(st_, ast.Assign) and len(st_.targets) == 1 and \
+                    isinstance(st_.targets[0], ast.Name):
+                v_ = st_.value
+                if isinstance(v_, ast.Lambda) or (
+                        isinstance(v_, ast.Call) and _opname(v_.func) in (
+                            'attrgetter', 'itemgetter', 'methodcaller')):
+                    sp.aliases[st_.targets[0].id] = v_
+    for _round in range(3):
+        before = sp.changed
+        sp.changed = False
+        for k, st in enumerate(new.body):
+            new.body[k] = sp.visit(st)
+        again = sp.changed
+        sp.changed = sp.changed or before
+        if not again:
+            break
     if sp.changed:
         changed = True
         for st in new.body:
